@@ -11,13 +11,34 @@
       reference and then does the same ([C02_guard_into]);
     - the storage of a container changes only by the single exchange of a writer and the
       exchanges of a run form one chain (C04).
-    NOT yet proved (partial): the closed equation over all schedules
+    Beyond these step theorems (see END-TO-END below for what is now proved over all schedules): the closed equation over all schedules
       count(a) + #slots holding a = #containers storing a + #handles and frames referring to a
-    ([Acc*], in progress).  It is checked on every run of the correspondence: the final-state
+    (now proved: see END-TO-END below).  It is checked on every run of the correspondence: the final-state
     dump of the real crate (all strong counts, all slots, containers, live objects) must equal
     the model's, and the oracle requires every value to be destroyed exactly once, at the drop
-    of its last owner, and every slot to be empty once its guard is gone. *)
-From ASModel Require Import Base State Orderings_gen Step Run Progress Hist Local.
+    of its last owner, and every slot to be empty once its guard is gone. 
+    END-TO-END ([ASModel.Main], all schedules, any number of threads): the theorems below hold for
+    every run from an initial configuration that satisfies [RunOK]: initial values are null or
+    valid addresses; no program calls the verification hook [set_generation] or uses Cache; in
+    every state of the run no generation counter is within 4 of wrapping ([GenBound]: a wrap needs
+    2^62 fallback loads of one thread; the wrap itself is C13), a command's destination handle is
+    empty and the source of a running clone is not dropped (conditions on the TEST PROGRAM, met by
+    every generated program: the model driver checks them on every run and the evidence counts the
+    runs inside this scope); the allocator hands out addresses that are not live, not null and not
+    the empty-slot marker.  The proof is an inductive invariant [Master] made of: node ownership
+    and per-program-point assertions (WF2), reservation counting and generation uniqueness
+    (GenInv), envelope exclusivity (EnvInv), exact accounting (AccInv), slot coverage (ProtInv'),
+    stack typing, and "no thread has faulted", each preserved by every step ([step_Master]).
+    [C02_accounting]: in every state of every such run, for every value address a:
+      count(a) + #slots holding a + #increments a writer still owes
+        = #containers storing a + #hand-over envelopes holding a + #handles + #frame references;
+    [C02_quiescent_counts]: when no operation is in progress the count equals containers + handles
+    minus the debts still in slots; [C02_no_owner_destroyed]: a value nobody owns has count 0, is
+    destroyed, and no slot holds it (no leak, no slot left occupied).
+*)
+From ASModel Require Import Base State Orderings_gen Step Run Progress Hist Local Inv InvTl InvProto InvStep Sum StepCases.
+From ASModel Require Import GenDefs Gen1 Gen2 Gen EnvDefs Env4 Env AccDefs Acc1 Acc2 Acc3 Acc4 Acc5 Acc6 Acc7 Acc.
+From ASModel Require Import ProtDefs Prot1 Prot11 Prot16 Prot Typed LinDefs Lin2 Lin Safe1 Safe2 Safe7 Safe8 Safe Main.
 
 Theorem C02_dec : forall s a,
   match heap s a with
@@ -65,8 +86,40 @@ Theorem C02_guard_into : forall cf s l v sl x,
        if mem s (slot_loc sl) =? v then NRet (ROwned v) else dec_then v (ROwned v)).
 Proof. exact guard_into_step. Qed.
 
+Theorem C02_accounting : forall cf inits progs sched,
+  RunOK cf inits progs sched -> Acc (run_state cf (init_state inits progs) sched).
+Proof. exact Main.C02_accounting. Qed.
+
+Theorem C02_quiescent_counts : forall cf inits progs sched a,
+  RunOK cf inits progs sched ->
+  let s := run_state cf (init_state inits progs) sched in
+  Quiescent s -> valid a ->
+  exists nS nC nH,
+    Total (fun ij : N * N => is a (mem (sh s) (LSlot (fst ij) (snd ij)))) nS /\
+    Total (fun c : N => is a (mem (sh s) (LStore c))) nC /\
+    Total (fun h : N => href a (hnd s h)) nH /\
+    mem (sh s) (LCount a) + nS = nC + nH.
+Proof. exact Main.C02_quiescent_counts. Qed.
+
+Theorem C02_no_owner_destroyed : forall cf inits progs sched a,
+  RunOK cf inits progs sched ->
+  let s := run_state cf (init_state inits progs) sched in
+  Quiescent s -> valid a ->
+  (forall c, mem (sh s) (LStore c) <> a) -> (forall h, href a (hnd s h) = 0) ->
+  mem (sh s) (LCount a) = 0 /\ heap (sh s) a = None /\ forall n j, mem (sh s) (LSlot n j) <> a.
+Proof. exact Main.C02_no_owner_destroyed. Qed.
+
+Theorem C02_accounting_step : forall cf s t x,
+  WF2 s -> Quiet s -> EnvFree s -> EnvA s -> ProgHyp s -> AccInv s ->
+  NoFault (fst (step cf s t x)) -> AccInv (fst (step cf s t x)).
+Proof. exact step_AccInv. Qed.
+
 Print Assumptions C02_dec.
 Print Assumptions C02_pay_slot.
 Print Assumptions C02_pay_inc.
 Print Assumptions C02_guard_drop.
 Print Assumptions C02_guard_into.
+Print Assumptions C02_accounting.
+Print Assumptions C02_quiescent_counts.
+Print Assumptions C02_no_owner_destroyed.
+Print Assumptions C02_accounting_step.
